@@ -10,6 +10,7 @@ import (
 	"time"
 
 	"pgregory.net/rapid"
+	"verif/harness/cmdmodel"
 	"verif/harness/gen"
 	"verif/harness/lexref"
 	"verif/harness/rep"
@@ -27,6 +28,7 @@ type renameCase struct {
 	Base     string            `json:"base"`
 	Renamed  string            `json:"renamed"`
 	Mapping  map[string]string `json:"mapping"`
+	Backend  string            `json:"backend,omitempty"` // "" = bash, "batch" = cmd.exe model
 }
 
 type idPool struct {
@@ -130,7 +132,51 @@ func observeBash(src string) bashObs {
 	return bashObs{verdict: "accept", stdout: res.Stdout, status: res.Status, stderrEmpty: res.Stderr == "", stderr: res.Stderr, timedOut: res.TimedOut, script: tr.Script}
 }
 
+// observeBatch runs the Batch output under the cmd.exe model; inconclusive runs are reported as such.
+func observeBatch(src string) (verdict string, stdout string, status int, inconclusive string) {
+	tr := run.TranspileOne(src, run.Batch)
+	if !tr.Accepted() {
+		return tr.Verdict(), "", 0, ""
+	}
+	res := cmdmodel.Run(tr.Script, 400000)
+	return "accept", res.Stdout, res.Status, res.Inconclusive
+}
+
+// checkRenamePairBatch: same metamorphic relation for the Batch target under the cmd.exe model.
+func checkRenamePairBatch(c renameCase) (string, string) {
+	bv, bout, bst, binc := observeBatch(c.Base)
+	if bv != "accept" || binc != "" {
+		return "", ""
+	}
+	nv, nout, nst, ninc := observeBatch(c.Renamed)
+	if nv == "reject" {
+		return "", ""
+	}
+	if nv != "accept" {
+		return "crash", "transpiling the renamed program for Batch: " + nv
+	}
+	if ninc != "" {
+		if strings.HasPrefix(ninc, "step-limit") {
+			return "hang", "the renamed program does not terminate under the cmd.exe model"
+		}
+		if strings.HasPrefix(ninc, "syntax") {
+			return "syntax", "the renamed Batch script is malformed under the cmd.exe model: " + ninc
+		}
+		return "", "" // outside the model: no verdict
+	}
+	if nout != bout {
+		return "stdout", fmt.Sprintf("stdout under the cmd.exe model differs\n--- base\n%s--- renamed\n%s", clip(bout), clip(nout))
+	}
+	if nst != bst {
+		return "status", fmt.Sprintf("exit status %d, base program %d (cmd.exe model)", nst, bst)
+	}
+	return "", ""
+}
+
 func checkRenamePair(c renameCase) (string, string) {
+	if c.Backend == "batch" {
+		return checkRenamePairBatch(c)
+	}
 	b := observeBash(c.Base)
 	if b.verdict != "accept" {
 		return "", "" // the base program is not this property's business
@@ -169,17 +215,19 @@ func TestC10(t *testing.T) {
 		"a generated program (scalars, functions, slices, strings, every loop form) and an injective renaming of its variables, parameters and functions into pools: compiler-shaped names (_h<n>, _rv<n>, _ma<n>, _fv<n>, _dv<n>, _dvc, helper scratch variables, mangled locals f<k>_x, Batch-owned names, helper routines; the pools are extended by every assignment target and function name found in the emitted script of the base program that is not a user spelling), shell-owned names (builtins, special/environment variables, reserved words), and random legal identifiers; functions and variables are renamed independently. Oracle (metamorphic): the renamed program is rejected by Transpile or shows the base program's stdout, exit status and stderr-emptiness under bash. Non-trivial = at least one identifier mapped into a compiler-shaped or shell-owned pool; distinct by renamed source.",
 		[]string{"Bash execution only; the Batch half of the property is covered structurally by C16 and by C05's model runs with neutral names", "a variable and a function never receive the same spelling (not asserted by the property)", "the base program itself is validated by the reference interpreter (invalid or non-terminating bases are discarded)"})
 	defer r.Flush()
-	cfg := gen.Cfg{MaxStmts: 18, MaxDepth: 3, ExprDepth: 3, Funcs: true, MaxFuncs: 3, Slices: true, StrOps: true, LoopBudget: 10, DumpGlobal: true}
+	cfg := gen.Cfg{MaxStmts: 18, MaxDepth: 3, ExprDepth: 3, Funcs: true, MaxFuncs: 3, Slices: true, StrOps: true, LoopBudget: 10, DumpGlobal: true, CmdNeutral: true}
 	if e.Thorough() {
 		cfg.MaxStmts, cfg.MaxFuncs, cfg.LoopBudget = 35, 5, 20
 	}
 	checkRapid(t, r, func(t *rapid.T) {
 		stmts, _ := gen.Stmts(t, cfg)
 		p := ts.Single(stmts)
-		if _, err := refRun(p, 2500, nil, nil); err != nil {
+		ref, err := refRun(p, 2500, nil, nil)
+		if err != nil {
 			r.Discard("invalid-base")
 			t.Skip("invalid base program")
 		}
+		batchOK := ref.MaxAbs <= 2147483647 && !ref.Overflow // the Batch half only for programs inside the 32-bit domain
 		// identifiers by role
 		vars, funcs := map[string]bool{}, map[string]bool{}
 		(&ts.Rewriter{Name: func(n, role string) string {
@@ -249,6 +297,20 @@ func TestC10(t *testing.T) {
 			}
 			return "", ""
 		}
+		// case variants of the program's own identifiers (cmd.exe folds case)
+		cv := []string{}
+		for n := range user {
+			for _, v := range []string{strings.ToUpper(n), strings.ToLower(n), strings.ToUpper(n[:1]) + n[1:]} {
+				if v != n && !user[v] {
+					cv = append(cv, v)
+				}
+			}
+		}
+		sort.Strings(cv)
+		if len(cv) > 0 {
+			varPools = append(varPools, idPool{"case-variant", cv}, idPool{"case-variant", cv})
+			funcPools = append(funcPools, idPool{"case-variant", cv})
+		}
 		nren := gen.Uniform(1, 3).Draw(t, "nrenamed")
 		all := []struct{ n, role string }{}
 		for _, n := range names(vars) {
@@ -297,6 +359,15 @@ func TestC10(t *testing.T) {
 			r.NonTrivial(renamed, map[string]any{"mapping": mapping, "renamed": renamed})
 		}
 		kind, msg := checkRenamePair(c)
+		backend := "bash"
+		if kind == "" && batchOK {
+			cb := c
+			cb.Backend = "batch"
+			if kind, msg = checkRenamePair(cb); kind != "" {
+				backend = "batch"
+				c = cb
+			}
+		}
 		if kind == "" {
 			return
 		}
@@ -310,6 +381,6 @@ func TestC10(t *testing.T) {
 			cl = []string{"random"}
 		}
 		ms, _ := json.Marshal(mapping)
-		r.FailCase(t, rep.Sig{"kind": kind, "identifier": strings.Join(cl, "+"), "backend": "bash"}, string(ms)+"\n"+msg+"\n--- renamed source\n"+renamed, c)
+		r.FailCase(t, rep.Sig{"kind": kind, "identifier": strings.Join(cl, "+"), "backend": backend}, string(ms)+"\n"+msg+"\n--- renamed source\n"+renamed, c)
 	})
 }
